@@ -2,6 +2,7 @@ import RV.Proofs.VarAux
 import RV.Proofs.VarKepler
 import RV.Gen.C16Dispatch
 import RV.Gen.C16Rescale
+import RV.Proofs.VarLoops
 import RV.Proofs.VarMegno
 import RV.Proofs.VarDeriv2a
 import RV.Proofs.VarDeriv2b
@@ -972,5 +973,59 @@ theorem c16_rescale_ias15_state_complete :
     (∀ a ∈ rescaled, a ∈ persistentArrays ias15Members writtenFirst) ∧
     (persistentArrays ias15Members writtenFirst).length = 30 := by
   decide +kernel
+
+end RV.Var
+
+/-! ### the loop bodies translated from gravity.c (RV/Gen/C16VarLoops, regenerated every run)
+
+`var1Body, var1TestBody, tpVar1Body, var2Body, tpVar2Body` are the bodies of the five inner loops of
+`reb_calculate_acceleration_var` as the source has them today (with `softening2` in r²). -/
+namespace RV.Var
+open RV RV.Gen.C16VarLoops
+variable {K : Type} [Field K] [CharZero K]
+
+omit [CharZero K] in
+/-- the source has the five loops the model assumes, in this order -/
+theorem c16_varloops_heads : loopHeads = expectedHeads := by decide
+
+omit [CharZero K] in
+/-- at softening 0 the translated kernels are the hand-written kernels all other C16 theorems are about; the
+    two first-order loops (active pairs, test particles × active) have the same body -/
+theorem c16_translated_kernels_are_the_model (sq : K → K) (G : K) :
+    (∀ pi pj di dj : GP K, var1Body sq G 0 pi pj di dj = var1Pair G sq (pi, di) (pj, dj)) ∧
+    (∀ (s2 : K) (pi pj di dj : GP K), var1Body sq G s2 pi pj di dj = var1TestBody sq G s2 pi pj di dj) ∧
+    (∀ pi pj d0 : GP K, tpVar1Body sq G 0 pi pj d0 = tpVar1Term G sq pi.x pi.y pi.z d0.x d0.y d0.z pj) ∧
+    (∀ pi pj : RV2 K, var2Body sq G 0 pi pj = var2Pair G sq pi pj) ∧
+    (∀ pi pj dd0 da0 db0 : GP K, tpVar2Body sq G 0 pi pj dd0 da0 db0
+      = tpVar2Term G sq pi.x pi.y pi.z ⟨dd0.x, dd0.y, dd0.z⟩ ⟨da0.x, da0.y, da0.z⟩ ⟨db0.x, db0.y, db0.z⟩ pj) :=
+  ⟨var1Body_eq_hand sq G, fun s2 => var1Body_eq_test sq G s2, tpVar1Body_eq_hand sq G, var2Body_eq_hand sq G, tpVar2Body_eq_hand sq G⟩
+
+/-- **First order, any softening, ∀ N** (removes the hypothesis softening = 0 of `c16_var1_is_derivative`):
+    the loop over the translated kernel is the ε-part of the softened BASIC force loop on duals. -/
+theorem c16_var1_softened_is_derivative (G s2 : K) (sq : K → K) (ps : List (RV1 K))
+    (h : ps.Pairwise (fun e l => PairOKs sq s2 l.1 e.1)) :
+    (accBasicAll (Dual.const G) (Dual.const s2) (Dual.sqrtLift sq) (ps.map dz1)).map epsV
+      = loopLF V3.add V3.zero (fun a b : RV1 K => var1Body sq G s2 a.1 b.1 a.2 b.2) [] [] ps := by
+  have := loopLF_hom V3.add V3.add V3.zero V3.zero epsV dz1
+    (forcePair (Dual.const G) (Dual.const s2) (Dual.sqrtLift sq)) (fun a b : RV1 K => var1Body sq G s2 a.1 b.1 a.2 b.2) epsV_add rfl
+    (fun pi pj => PairOKs sq s2 pi.1 pj.1) (fun pi pj hp => var1_pair_soft G s2 sq pi pj hp) ps [] []
+    (fun _ _ _ hq => by cases hq) h
+  simpa [accBasicAll] using this
+
+/-- **Second order, any softening, ∀ N**: the `i<j` loop over the translated kernel is the ε₁ε₂-part of the
+    softened force loop on `Dual (Dual K)` -/
+theorem c16_var2_softened_is_second_derivative (G s2 : K) (sq : K → K) (ps : List (RV2 K))
+    (h : ps.Pairwise (fun e l => PairOKs sq s2 l.p e.p)) :
+    (accBasicAll (Dual.const (Dual.const G)) (Dual.const (Dual.const s2)) (Dual2.sqrtLift2 sq) (ps.map dz2)).map epsV2
+      = loopEF V3.add (var2Body sq G s2) ps (ps.map (fun _ => V3.zero)) := by
+  have h1 := loopLF_hom V3.add V3.add V3.zero V3.zero epsV2 dz2
+      (forcePair (Dual.const (Dual.const G)) (Dual.const (Dual.const s2)) (Dual2.sqrtLift2 sq)) (var2Body sq G s2)
+      epsV2_add rfl (fun pi pj => PairOKs sq s2 pi.p pj.p) (fun pi pj hp => var2_pair_soft G s2 sq pi pj hp)
+      ps [] [] (fun _ _ _ hq => by cases hq) h
+  simp only [List.map_nil] at h1
+  simp only [accBasicAll]
+  rw [h1, loopLF_eq_g]
+  exact loopLFg_eq_loopEF V3.add (var2Body sq G s2) ps _ (by simp)
+    (List.pairwise_of_forall (fun a b => var2Body_symm G s2 sq a b))
 
 end RV.Var
